@@ -15,7 +15,7 @@ CONSTANTS L, NMax, HM, Variant, FirstBytes   \* Variant: "fixed" | "prefix-D8" |
 
 VARIABLE b0
 AllBytes == 0..255
-FewBytes == {0, 1, 2, 3, 4, 5, 6, 7, 8, 9, 10, 127, 128, 255}
+FewBytes == {0, 1, 2, 3, 5, 127, 128, 255}
 VBox == {-300, -129, -128, -127, -1, 0, 1, 127, 128, 129, 300}
 Strings(first) == {<<first>> \o t : t \in [1..(L - 1) -> 0..255]}
 
